@@ -233,6 +233,7 @@ func cmdRun(args []string) {
 		j.SplitK = *only
 		res := runJob(ld, j)
 		printResult(res)
+		dumpForkStats()
 		return
 	}
 	for _, r := range runJobs(ld, jobs, *workers) {
